@@ -216,7 +216,7 @@ struct OpRec {
     cancel_requested: bool,
     /// cancel_token returned true / cancel() reached the driver, with the poll-line count at that moment
     cancel_issued_at: Option<usize>,
-    /// harness estimate: SQ was full when the cancel was issued (io_uring)
+    /// harness estimate: SQ was full when the cancel was issued (io_uring) — the situation of the repaired finding F9
     cancel_sq_full: Option<(usize, u32)>,
     /// submission count when the cancel was issued
     cancel_mark: usize,
@@ -458,15 +458,26 @@ impl World {
         }
     }
 
-    /// bookkeeping of a cancel that reaches `Driver::cancel`
+    /// bookkeeping of a cancel that reached `Driver::cancel`. io_uring queues the AsyncCancel SQE through `push_raw`:
+    /// with a full submission queue the driver submitted and reaped completions INSIDE the cancel call; CQEs caused
+    /// by that submit may arrive a moment later (same race as for an overflowing `push`), so poll to quiescence.
     fn note_driver_cancel(&mut self, i: usize) {
         self.ops[i].cancel_issued_at = Some(self.polls);
-        self.ops[i].cancel_mark = self.submits;
+        let mut overflow = false;
         if self.iour() {
-            if self.sq_est >= self.cap {
+            overflow = self.sq_est >= self.cap;
+            if overflow {
                 self.ops[i].cancel_sq_full = Some((self.sq_est as usize, self.cap));
-            } else {
-                self.sq_est += 1;
+            }
+            self.note_sq_push();
+        }
+        // the cancel SQE itself is in the queue now: it reaches the kernel with the NEXT submit
+        self.ops[i].cancel_mark = self.submits;
+        if overflow {
+            if let Some(p) = self.p.as_mut() {
+                settle(p);
+                self.polls += 1;
+                self.note_poll();
             }
         }
     }
@@ -915,11 +926,6 @@ impl World {
                 if self.p.is_none() {
                     return self.fin("noproactor");
                 }
-                // safety net: never execute a drop that makes the real code release storage twice (F13)
-                if self.iour() && self.ops.iter().any(|o| o.undrained > 1 + o.held() as usize) {
-                    self.skip = true;
-                    return self.fin("unsafe-skip");
-                }
                 let p = self.p.take().unwrap();
                 with_phase(PH_PDROP, || drop(p));
                 RING_FD.store(-1, SeqCst);
@@ -1134,12 +1140,10 @@ impl World {
         if out == "pending" && o.kind != HKind::Blk {
             if let Some(at) = o.cancel_issued_at {
                 if self.polls > at && !o.reported {
-                    let (sig, why) = match o.cancel_sq_full {
-                        Some((n, cap)) => (
-                            "F9:iour-cancel-dropped-sq-full",
-                            format!("the submission queue was full (sq={n}/{cap}) when the cancel was issued"),
-                        ),
-                        None => ("C05:cancel-not-prompt", "the submission queue had room".to_string()),
+                    let sig = "C05:cancel-not-prompt";
+                    let why = match o.cancel_sq_full {
+                        Some((n, cap)) => format!("the submission queue was full (sq={n}/{cap}) when the cancel was issued: regression of the repaired finding F9?"),
+                        None => "the submission queue had room".to_string(),
                     };
                     ex.fail(
                         sig,
@@ -1198,12 +1202,10 @@ impl World {
                 // visible sign of completion
                 if let (Some(at), false, true, true) = (o.cancel_issued_at, o.held(), alive, o.kind != HKind::Blk) {
                     if polls > at && !o.reported {
-                        let (sig, why) = match o.cancel_sq_full {
-                            Some((n, cap)) => (
-                                "F9:iour-cancel-dropped-sq-full",
-                                format!("the submission queue was full (sq={n}/{cap}) when the cancel was issued"),
-                            ),
-                            None => ("C05:cancel-not-prompt", "the submission queue had room".to_string()),
+                        let sig = "C05:cancel-not-prompt";
+                        let why = match o.cancel_sq_full {
+                            Some((n, cap)) => format!("the submission queue was full (sq={n}/{cap}) when the cancel was issued: regression of the repaired finding F9?"),
+                            None => "the submission queue had room".to_string(),
                         };
                         ex.fail(sig, format!("op {i} ({:?}, slot {}): cancelled and released by the caller, but the driver still keeps it in flight after {} poll line(s); {why}", o.kind, o.slot, polls - at));
                         o.reported = true;
@@ -1217,9 +1219,9 @@ impl World {
                 let multishot = matches!(o.kind, HKind::Acc | HKind::Zc);
                 if iour && ph == PH_PDROP && multishot {
                     ex.fail(
-                        "F13:iour-drop-multishot-cqe",
+                        "C01:freed-while-user-holds",
                         format!(
-                            "op {i} ({:?}): storage released inside drop(proactor) while the caller still holds its key ({} CQEs of this op were waiting in the completion queue)",
+                            "op {i} ({:?}): storage released inside drop(proactor) while the caller still holds its key ({} CQEs of this op were waiting in the completion queue: regression of the repaired finding F13?)",
                             o.kind, o.undrained
                         ),
                     );
@@ -1253,14 +1255,16 @@ impl World {
             } else if iour && ph == PH_PDROP && ring == 1 && o.kind == HKind::Acc && o.pending && !o.cancel_requested {
                 // a multishot accept is still armed in the kernel whatever arrived so far
                 ex.fail(
-                    "F13:iour-drop-multishot-cqe",
-                    format!("op {i} (Acc): multishot op still armed in the kernel, storage released inside drop(proactor) while the io_uring fd was still open ({} CQE(s) flagged `more` were waiting in the completion queue)", o.undrained),
+                    "C01:freed-before-ring-close",
+                    format!("op {i} (Acc): multishot op still armed in the kernel, storage released inside drop(proactor) while the io_uring fd was still open ({} CQE(s) flagged `more` were waiting in the completion queue: regression of the repaired finding F13?)", o.undrained),
                 );
                 o.reported = true;
             }
             // a cancel()/drop(key)/cancel_token() call itself must never release an op the kernel may own
             if iour && ring == 1 && matches!(ph, PH_CANCEL | PH_KEYDROP | PH_TCANCEL) && o.pending && o.kind != HKind::Blk && !o.reported {
-                let cancelled_and_submitted = o.cancel_issued_at.is_some() && o.cancel_sq_full.is_none() && self.submits > o.cancel_mark;
+                // its AsyncCancel reached the kernel: the final CQE may have been reaped since (in a poll, in a push or a cancel
+                // that overflowed the submission queue)
+                let cancelled_and_submitted = o.cancel_issued_at.is_some() && self.submits > o.cancel_mark;
                 let could_be_done = self.ever_ready[o.slot] || o.kind == HKind::Zc || cancelled_and_submitted;
                 if !could_be_done {
                     ex.fail("C01:freed-while-inflight", format!("op {i}: storage released inside {} on a never-ready descriptor", phase_name(ph)));
